@@ -321,7 +321,8 @@ func (c03) Cases(tier string, emit func(string, interface{})) {
 				}
 			}
 		}
-		if full && (isGen || len(lines) <= 25) {
+		if full && (isGen || len(lines) <= 14) {
+			// (pairs on every file of <= 25 lines are 356 k cases: with the rest, more than the 40 minute deadline)
 			for a := 0; a < len(locals); a++ {
 				for b := a; b < len(locals); b++ {
 					// apply the later position first so that indices stay valid
